@@ -404,6 +404,7 @@ func runC17(c *Ctx) {
 	}
 	checkDeriveKeyUse(c, "C17-R5")
 	checkSaltedHash(c, "C17-R5")
+	checkNoOverRejectingLengthGuard(c, "C17-R1")
 	checkSnaclErrors(c, "C17-R3")
 	checkSelectedKeyUsedUnderLock(c, "C17-R5")
 }
